@@ -1,19 +1,27 @@
 // c10: interpreted goroutines and channels vs compiled Go.
 // Part 1: random concurrent programs whose result is schedule independent by construction (fan-in sums over
-//   unbuffered/buffered channels, close + range, select with and without default, sync.WaitGroup / sync.Mutex,
-//   closures shared between goroutines, pipelines, nested go statements); each is run R times in gomacro with
-//   GOMAXPROCS varied and compared with the same function compiled by `go build` (batched oracle module, go 1.18).
+//
+//	unbuffered/buffered channels, close + range, select with and without default, sync.WaitGroup / sync.Mutex,
+//	closures shared between goroutines, pipelines, nested go statements); each is run R times in gomacro with
+//	GOMAXPROCS varied and compared with the same function compiled by `go build` (batched oracle module, go 1.18).
+//
 // Part 2: schedule-dependent programs (several senders on one channel, order-sensitive fold at the receiver):
-//   every observed result must belong to the admissible set computed by exhaustive enumeration of the merges of
-//   the senders' sequences (test oracle).
+//
+//	every observed result must belong to the admissible set computed by exhaustive enumeration of the merges of
+//	the senders' sequences (test oracle).
+//
 // Part 3 (corpus): the recorded racy program (closure created in a go statement's arguments, called by a third
-//   goroutine); under -race its reports are keyed C10-go-arg-closure-race.
+//
+//	goroutine); under -race its reports are keyed C10-go-arg-closure-race.
+//
 // Ownership probes (every tier): the generated programs call chk() at the start of every goroutine body and inside
-//   closures; in gomacro chk is a compiled function registered with DeclEnvFunc that receives the calling frame:
-//   the Run of that frame must be owned by the running goroutine's identity (gls.GoID) and must not be in use by
-//   two goroutines at once.  After every program the registry (hook VerifRegistry) must return to exactly
-//   {creator -> the interpreter's own Run}: every go-statement goroutine registers a record of its own and removes
-//   it on exit, and never touches the creator's entry.
+//
+//	closures; in gomacro chk is a compiled function registered with DeclEnvFunc that receives the calling frame:
+//	the Run of that frame must be owned by the running goroutine's identity (gls.GoID) and must not be in use by
+//	two goroutines at once.  After every program the registry (hook VerifRegistry) must return to exactly
+//	{creator -> the interpreter's own Run}: every go-statement goroutine registers a record of its own and removes
+//	it on exit, and never touches the creator's entry.
+//
 // Part 4 (corpus): coldProg (first concurrent execution of one call expression), key C10-callsite-cache-race.
 // Thorough tier: built with -race; the process re-executes itself with GORACE=log_path and turns every report
 // into a failure.
@@ -427,8 +435,11 @@ func main() {
 		reexec(a)
 	}
 	rep := vh.NewReport(a, "part 1: PRNG-generated concurrent programs from 9 schedule-independent families (fan-in, buffered+close+range, WaitGroup+Mutex, select with default, select over two producers, closure shared between goroutines, pipeline, nested go, close-broadcast) with random sizes/capacities/constants, each run R times under GOMAXPROCS 1,2,4,8 and compared with the compiled function; ownership probe chk() at the start of every goroutine body and closure, registry audit after every program; "+
+		"part 1b: programs in which ONE select statement is in flight several times between operand evaluation and communication: 2-4 goroutines run the same function whose select (1-3 send/receive cases, with/without default) has operands that are calls blocking on a gate, "+
+		"released by the main goroutine in a PRNG-chosen interleaving (deterministic handshake, one ready case or none per worker, own channels per worker); a select re-entered from its own send operand (depth 1-3); 2-6 goroutines x 20-79 iterations of the same select without handshake; result = fold of every worker's chosen case / received value and every channel's final content, compared with the compiled function; "+
+		"go statements whose FUNCTION operand is a non-constant expression (slice/map element, call result, method value of a variable / through a pointer / of an interface, function variable, struct field, closure call result) and whose inputs the caller changes directly after the go statement (2-5 go statements per program, each goroutine reports on its own channel); "+
 		"part 2: order-dependent programs (2-3 senders, 1-2 values each, capacity 0-2) checked against the exhaustively enumerated admissible set; every program with >= 2 goroutines is non-trivial; distinct by SHA-256 of the source")
-	limit := 120 * time.Second // one heartbeat covers the `go build` of the whole oracle batch
+	limit := 300 * time.Second // one heartbeat covers the `go build` of the whole oracle batch (> 2 min on a loaded machine)
 	if raceEnabled || a.Thorough() {
 		limit = 420 * time.Second
 	}
@@ -462,17 +473,61 @@ func main() {
 	for k := 0; k < nD; k++ {
 		dep = append(dep, genDep(rng, k))
 	}
+	// recorded input of finding C10-2 (see overlap.go): replayed first; decides whether pointer-receiver method values are generated
+	{
+		pi := newInterp()
+		got := ""
+		perr := vh.Catch(func() {
+			for _, s := range ptrRecvProg {
+				pi.Eval(s)
+			}
+			v1, _ := pi.Eval("c10probe1()")
+			v2, _ := pi.Eval("c10probe2()")
+			got = fmt.Sprint(v1[0].Int(), " ", v2[0].Int())
+		})
+		if perr != nil {
+			got = fmt.Sprint("panic: ", perr)
+		}
+		avoidPtrRecv = got != "0 0"
+		rep.Extra["defect_present:"+keyPtrRecv] = avoidPtrRecv
+		if avoidPtrRecv && knownKeys()[keyPtrRecv] {
+			rep.Fail(vh.Failure{Key: keyPtrRecv, What: "a method value with a pointer receiver read from a pointer variable (g := p.get; go p.put(o)) is bound to the variable, not to the pointer it held when the method value / go statement was evaluated",
+				Input: ptrRecvProg, Got: got, Want: "0 0 (compiled Go)"})
+		}
+		rep.Dist("corpus:method-value-pointer-receiver")
+	}
+	// part 1b (overlap.go): the same select statement in flight several times
+	nO := 64
+	if a.Thorough() {
+		nO = 500
+	}
+	if a.N > 0 {
+		nO = a.N
+	}
+	orng := rng.Fork()
+	for k := 0; k < nO; k++ {
+		indep = append(indep, genOverlap(orng, k))
+	}
 	wd.Beat("oracle build")
 	want, err := buildOracle(a, indep)
 	if err != nil {
 		fmt.Println(err)
 		os.Exit(2)
 	}
+	// a second, shorter watchdog for the execution of one program (the first one also covers the oracle build):
+	// a program that deadlocks in the interpreter is reported after 90 s with the program as input
+	limit2 := 90 * time.Second
+	if raceEnabled || a.Thorough() {
+		limit2 = limit
+	}
+	wd2 := vh.NewWatchdog(rep, limit2)
+	wd2.Beat("start")
 	ir := newInterp()
 	procs := []int{1, 2, 4, 8}
 	runs, regBad := 0, 0
 	check := func(p prog, ok func(int) bool, wantDesc interface{}) {
 		wd.Beat(p)
+		wd2.Beat(p)
 		if perr := vh.Catch(func() { ir.Eval(p.Src) }); perr != nil {
 			rep.Fail(vh.Failure{Key: p.Src, What: "gomacro rejects a program that Go compiles", Input: p, Got: fmt.Sprint(perr)})
 			return
@@ -499,6 +554,11 @@ func main() {
 		}
 		rep.Count(p.Src, true)
 		rep.Dist("kind:" + strings.SplitN(p.Kind, ":", 2)[0])
+		if strings.HasPrefix(p.Kind, "go-operand-snapshot:") {
+			for _, f := range strings.Split(strings.SplitN(p.Kind, ":", 2)[1], ",") {
+				rep.Dist("go-operand:" + f)
+			}
+		}
 	}
 	for i, p := range indep {
 		w := want[p.Name]
@@ -522,9 +582,12 @@ func main() {
 	}
 	runtime.GOMAXPROCS(runtime.NumCPU())
 	if !raceEnabled {
+		wd2.Beat("corpus: go-arg-closure")
 		runCorpus(rep, 50)
+		wd2.Beat("corpus: cold call")
 		runCold(rep, 3)
 	}
+	wd2.Beat("report")
 	if pr.viol != 0 {
 		rep.Fail(vh.Failure{Key: "probe:ownership", What: "a frame allocated in a goroutine uses a Run owned by another identity (count)", Input: "all programs", Got: fmt.Sprint(pr.viol, " first: ", pr.first.Load()), Want: 0})
 	}
